@@ -8,7 +8,7 @@ from facts import short, strip_generics
 PROPERTY = "C22"
 TITLE = "Lexing is total and lossless"
 NEEDS = ("syn", "facts")
-TECHNIQUE = "static analysis: ADT layout/variant facts from rustc for the transmuted token enums, push-pairing (who-writes) on the token vectors, per-iteration advance rule in the sub-lexers"
+TECHNIQUE = "static analysis: ADT layout/variant facts from rustc for the transmuted token enums, push-pairing (who-writes) on the token vectors, abstract evaluation of the lexer's driver loop on model scanner streams and of the literal sub-lexers on all short literals, per-iteration advance rule in the sub-lexers"
 EXPLANATION = (
     "The token boundaries are represented as `starts` with one sentinel, so coverage/contiguity reduce to three structural "
     "facts which are checked: (b) `kinds` and `starts` are pushed only together (inside the handler closure) plus exactly one "
